@@ -28,7 +28,11 @@ EnvClauses(r, P, Q) ==
     C!Failing({
       <<"EnvKeepsEntries", Q.entries = P.entries \/ r.op = "crash">>,
       \* (a crash record continues on the directory snapshot taken at the crash point)
-      <<"EnvKeepsContents", r.op = "crash" \/ \A k \in TKey : Q.files[k].st = P.files[k].st>>,
+      \* registered entries keep their contents; a file that is not an entry may still be completed by a pool
+      \* worker that outlived a request that raised (none / partial -> good), nothing else may change
+      <<"EnvKeepsContents", r.op = "crash" \/ \A k \in TKey :
+            IF k \in P.entries THEN Q.files[k].st = P.files[k].st
+            ELSE Q.files[k].st \in {P.files[k].st, "good"}>>,
       <<"EnvKeepsMax", Q.max = P.max \/ r.op = "crash">>
     })
 
